@@ -163,6 +163,7 @@ type Contract struct {
 	Props    []string
 	Requires []*Clause
 	Ensures  []*Clause
+	Maintains []string // global invariants re-established on exit
 	Defines  *Expr     // result of this pure, deterministic function is denoted by this spec application
 	MayPanic []*Clause // E may be nil (unconditional)
 	Assigns  []string
@@ -218,7 +219,17 @@ type IfaceMethod struct {
 	PkgName string
 }
 
+type GlobalInv struct {
+	Name    string
+	E       *Expr
+	PkgName string
+	File    string
+	Line    int
+	Text    string
+}
+
 type SpecFile struct {
+	GlobalInvs []*GlobalInv
 	Path      string
 	PkgName   string // package whose scope resolves unqualified names ("" for prelude)
 	Contracts []*Contract
@@ -907,7 +918,7 @@ var clauseKeywords = map[string]bool{
 	"maypanic": true, "assigns": true, "loop": true, "inline": true, "trusted": true,
 	"pure": true, "type": true, "spec": true, "unfold": true, "axiom": true, "extern": true,
 	"iface": true, "lemma": true, "let": true, "assert": true, "assume": true, "level": true,
-	"package": true, "nobody": true, "call": true, "defines": true,
+	"package": true, "nobody": true, "call": true, "defines": true, "global": true, "maintains": true,
 }
 
 type rawClause struct {
@@ -1070,6 +1081,21 @@ func ParseSpecText(text, path string, goFile bool) (*SpecFile, error) {
 			if err := addClause(&cur.MayPanic, "maypanic", rc2); err != nil {
 				return nil, err
 			}
+		case "maintains":
+			cur.Maintains = append(cur.Maintains, strings.Fields(rc.text)...)
+		case "global":
+			// global invariant NAME: E
+			txt := strings.TrimSpace(strings.TrimPrefix(strings.TrimSpace(rc.text), "invariant"))
+			j := strings.Index(txt, ":")
+			if j < 0 {
+				return nil, fmt.Errorf("%s:%d: global invariant needs 'NAME: E'", path, rc.line)
+			}
+			e, err := parseExprString(txt[j+1:], path, rc.line)
+			if err != nil {
+				return nil, err
+			}
+			sf.GlobalInvs = append(sf.GlobalInvs, &GlobalInv{Name: strings.TrimSpace(txt[:j]), E: e, PkgName: sf.PkgName, File: path, Line: rc.line, Text: strings.Join(strings.Fields(txt[j+1:]), " ")})
+			cur = nil
 		case "defines":
 			e, err := parseExprString(rc.text, path, rc.line)
 			if err != nil {
